@@ -3,6 +3,7 @@
 From Coq Require Import List ZArith Bool Arith Lia Permutation.
 From Verif Require Import C07.Model C07.Spec C07.Proofs_Res C07.Proofs_Ledger C07.Proofs_View
   C07.Proofs_Alloc.
+From Verif Require Import Gen.Gen_scores Lib.GenScores.
 Import ListNotations.
 Open Scope Z_scope.
 
@@ -88,6 +89,14 @@ Definition ledger_ok (b : bool) (l : ledger) (minors : list nat) (per : res) (m 
   In m minors /\
   exists f, dget (free l) m = Some f /\ (b = true -> rle per (view_free l m f) = true) /\
             ris_zero (ores (dget (total l) m)) = false.
+(* the same, reduced to what the property needs: the request fits the free amount of every
+   resource the device exposes *)
+Definition ledger_okx (b : bool) (l : ledger) (minors : list nat) (per : res) (m : nat) : Prop :=
+  In m minors /\
+  exists f, dget (free l) m = Some f /\
+            (b = true -> forall k T v, rget (ores (dget (total l) m)) k = Some T -> rget per k = Some v ->
+                                       v <= rval f k) /\
+            ris_zero (ores (dget (total l) m)) = false.
 Definition pfit_t (kind : Z) (t : nat) (tot : devres) (per : res) (shared : bool) : bool :=
   negb (Nat.eqb t 0) || pfit kind tot per shared.
 
@@ -110,6 +119,12 @@ Section OneLedger.
     assert (Zf : ris_zero f = false).
     { rewrite <- (view_free_is_zero l FS Ht Hu m f Efl). exact Z. }
     exact (free_nonzero_total l FS Ht Hu m f Efl Zf).
+  Qed.
+
+  Lemma ledger_ok_okx b per m : ledger_ok b l minors per m -> ledger_okx b l minors per m.
+  Proof.
+    intros [Hin [f [Ef [R Z]]]]. split; auto. exists f. split; auto. split; auto.
+    intros Hb k T v ET Ev. exact (view_free_rle_exposed l FS Ht Hu m f Ef per k T v (R Hb) ET Ev).
   Qed.
 
   Lemma eligible_view per m : eligible_minor l minors per m = true ->
@@ -250,23 +265,77 @@ Section OneLedger.
 End OneLedger.
 
 (* ------------------------------------------------------------------ scores are not negative *)
-Lemma slot_score_nonneg req tot fr k x : 0 <= rval tot k -> slot_score req tot fr k = Some x -> 0 <= x.
+(* the per-resource scores are the functions regenerated from scoring.go; what is used of them is
+   stated through Lib.GenScores ([least_spec] / [most_spec]) *)
+Lemma least_spec_nonneg r c : 0 <= c -> 0 <= least_spec r c.
 Proof.
-  unfold slot_score. intros Ht. destruct (rval tot k =? 0) eqn:E; [discriminate|].
-  apply Z.eqb_neq in E. intros H. injection H as <-.
-  match goal with |- context [if ?b then _ else _] => destruct b eqn:L end; [lia|].
-  apply Z.ltb_ge in L. apply Z.quot_pos; lia.
+  intros Hc. unfold least_spec. destruct (c =? 0) eqn:E0; [lia|]. destruct (c <? r) eqn:L; [lia|].
+  apply Z.ltb_ge in L. apply Z.eqb_neq in E0. pose proof max_node_score_pos. apply Z.quot_pos; nia.
 Qed.
-Lemma score_device_nonneg t req tot fr : (forall k, 0 <= rval tot k) -> 0 <= score_device t req tot fr.
+Lemma slot_score_nonneg most req tot fr k x :
+  0 <= rval tot k -> (most = true -> 0 <= rval req k) ->
+  slot_score most req tot fr k = Some x -> 0 <= x.
 Proof.
-  intros Ht. unfold score_device.
-  set (ss := map (slot_score req tot fr) (weighted_slots t)).
+  unfold slot_score. intros Ht Hm. destruct (rval tot k =? 0) eqn:E; [discriminate|].
+  intros H. injection H as <-. destruct most.
+  - rewrite deviceshare_most_is_spec. specialize (Hm eq_refl).
+    apply most_range; [|lia]. destruct (rval fr k <=? rval tot k) eqn:L; [|lia].
+    apply Z.leb_le in L. lia.
+  - rewrite deviceshare_least_is_spec. now apply least_spec_nonneg.
+Qed.
+Lemma score_device_nonneg most t req tot fr :
+  (forall k, 0 <= rval tot k) -> (most = true -> forall k, 0 <= rval req k) ->
+  0 <= score_device most t req tot fr.
+Proof.
+  intros Ht Hm. unfold score_device.
+  set (ss := map (slot_score most req tot fr) (weighted_slots t)).
   set (n := Z.of_nat (length (filter (fun o : option Z => match o with Some _ => true | None => false end) ss))).
   destruct (n =? 0) eqn:E; [lia|]. apply Z.eqb_neq in E.
   apply Z.quot_pos; [|unfold n in *; lia].
   apply sumZ_map_nonneg. intros o Ho. unfold ss in Ho. apply in_map_iff in Ho as [k [<- _]].
-  destruct (slot_score req tot fr k) as [x|] eqn:S; cbn; [|lia].
-  eapply slot_score_nonneg; eauto.
+  destruct (slot_score most req tot fr k) as [x|] eqn:S; cbn; [|lia].
+  apply (slot_score_nonneg most req tot fr k x (Ht k)); auto.
+Qed.
+
+(* every device score lies on the scale [0, MaxNodeScore] of the regenerated score functions *)
+Lemma slot_score_range most req tot fr k x :
+  0 <= rval tot k -> 0 <= rval req k ->
+  slot_score most req tot fr k = Some x -> 0 <= x <= MaxNodeScore.
+Proof.
+  unfold slot_score. intros Ht Hr. destruct (rval tot k =? 0) eqn:E; [discriminate|].
+  intros H. injection H as <-.
+  assert (Hq : 0 <= (if rval fr k <=? rval tot k then rval tot k - rval fr k + rval req k else rval tot k)).
+  { destruct (rval fr k <=? rval tot k) eqn:L; [|lia]. apply Z.leb_le in L. lia. }
+  destruct most.
+  - rewrite deviceshare_most_is_spec. now apply most_range.
+  - rewrite deviceshare_least_is_spec. now apply least_range.
+Qed.
+Lemma sum_scores_bound (ss : list (option Z)) M :
+  0 <= M -> (forall x, In (Some x) ss -> 0 <= x <= M) ->
+  0 <= sumZ (map oz ss)
+  <= M * Z.of_nat (length (filter (fun o : option Z => match o with Some _ => true | None => false end) ss)).
+Proof.
+  intros HM. induction ss as [|o ss IH]; intros H; [cbn; lia|].
+  specialize (IH (fun x Hx => H x (or_intror Hx))). cbn [map filter]. rewrite sumZ_cons.
+  destruct o as [x|]; cbn [oz length].
+  - specialize (H x (or_introl eq_refl)). lia.
+  - lia.
+Qed.
+Lemma score_device_range most t req tot fr :
+  (forall k, 0 <= rval tot k) -> (forall k, 0 <= rval req k) ->
+  0 <= score_device most t req tot fr <= MaxNodeScore.
+Proof.
+  intros Ht Hr. unfold score_device.
+  set (ss := map (slot_score most req tot fr) (weighted_slots t)).
+  set (n := Z.of_nat (length (filter (fun o : option Z => match o with Some _ => true | None => false end) ss))).
+  pose proof max_node_score_pos as HM.
+  destruct (n =? 0) eqn:E; [lia|]. apply Z.eqb_neq in E.
+  assert (B : 0 <= sumZ (map oz ss) <= MaxNodeScore * n).
+  { apply sum_scores_bound; [lia|]. intros x Hx. unfold ss in Hx. apply in_map_iff in Hx as [k [Hk _]].
+    exact (slot_score_range most req tot fr k x (Ht k) (Hr k) Hk). }
+  assert (0 < n) by (unfold n in *; lia). split.
+  - apply Z.quot_pos; lia.
+  - apply Z.quot_le_upper_bound; lia.
 Qed.
 
 (* what the partition path returns *)
@@ -317,7 +386,8 @@ Section CoreAlloc.
   Variable count : Z.
   Variable shared scored : bool.
   Hypothesis Hcount : 1 <= count.
-  Definition core_ctx := mkCtx (desired_count count) shared scored per (filter_view l minors)
+  Hypothesis Hper : most_of kind = true -> res_nonneg per = true.
+  Definition core_ctx := mkCtx (desired_count count) shared scored (most_of kind) per (filter_view l minors)
                  (build_total infos 0) (real_used orig_used (filter_view l minors)).
   Notation c := core_ctx.
   Definition general :=
@@ -326,7 +396,7 @@ Section CoreAlloc.
       | Some r => Some (map (fun m => (m, per)) (sr_minors r))
       | None => None
       end
-    else default_allocate t scored (filter_view l minors) per (desired_count count) (desired_count count).
+    else default_allocate (most_of kind) t scored (filter_view l minors) per (desired_count count) (desired_count count).
 
   Lemma general_sound b al :
     general = Some al ->
@@ -341,9 +411,11 @@ Section CoreAlloc.
       apply Nat.eqb_eq in Bt.
       assert (Hok : sr_ok c (fun m => In m minors) r).
       { eapply root_alloc_ok; [| | | |exact R].
-        - intros m. unfold topo_score. cbn [tc_shared tc_scored tc_req tc_view tc_scope_total c].
+        - intros m. unfold topo_score. cbn [tc_shared tc_scored tc_most tc_req tc_view tc_scope_total c].
           destruct (shared && scored); [|lia].
-          apply score_device_nonneg. intros k. now apply view_free_val_nonneg.
+          apply score_device_nonneg.
+          + intros k. now apply view_free_val_nonneg.
+          + intros Hm k. now apply res_nonneg_rval, Hper.
         - apply root_minors_spec.
         - intros m Hm. unfold minors. rewrite Bt. now apply root_minors_spec.
         - intros sc Hsc. unfold minors. rewrite Bt. now apply numa_scopes_spec. }
@@ -429,13 +501,13 @@ Section CoreAlloc.
 End CoreAlloc.
 
 Lemma alloc_type_sound kind ls infos t per count shared scored al :
-  lgood (ledger_of ls t) -> 1 <= count ->
+  lgood (ledger_of ls t) -> 1 <= count -> (most_of kind = true -> res_nonneg per = true) ->
   alloc_type kind scored ls infos t per count shared = Some al ->
   length al = desired_count count /\ NoDup (map fst al) /\
   forall a, In a al -> snd a = per /\
     ledger_ok (pfit_t kind t (total (ledger_of ls t)) per shared) (ledger_of ls t) (minors_of infos t) per (fst a).
 Proof.
-  intros G Hc. unfold alloc_type.
+  intros G Hc Hp. unfold alloc_type.
   apply alloc_core_sound; auto; [apply G|apply G|now apply lgood_used_nonneg].
 Qed.
 Lemma alloc_type_complete kind ls infos t per count shared scored :
@@ -452,14 +524,15 @@ Qed.
 Definition filled (tot : devres) (a a' : alloc) : Prop :=
   fst a' = fst a /\ r0 (snd a') = r0 (snd a) /\ r1 (snd a') = r1 (snd a) /\
   (r2 (snd a) = None ->
-   r2 (snd a') = Some (Z.quot (oz (r1 (snd a)) * rval (ores (dget tot (fst a))) 2) 100)).
+   r2 (snd a') = Some (Z.quot (oz (r1 (snd a)) * rval (ores (dget tot (fst a))) 2) 100)) /\
+  (forall v, r2 (snd a) = Some v -> r2 (snd a') = Some v).
 
 Lemma fill_gpu_mem_spec tot a a' : fill_gpu_mem tot a = Some a' -> filled tot a a'.
 Proof.
   unfold fill_gpu_mem, filled. destruct (dget tot (fst a)) as [g|] eqn:E; [|discriminate].
   destruct (ris_zero g); [discriminate|]. destruct (r2 (snd a)) eqn:E2; intros H; injection H as <-.
-  - repeat split; auto. discriminate.
-  - cbn [fst snd r0 r1 r2 ores]. repeat split; auto.
+  - repeat split; auto; [discriminate|]. intros v Hv. congruence.
+  - cbn [fst snd r0 r1 r2 ores]. repeat split; auto. intros v Hv. discriminate.
 Qed.
 Lemma fill_all_spec tot al g : fill_all tot al = Some g -> Forall2 (filled tot) al g.
 Proof.
@@ -492,165 +565,3 @@ Proof.
   destruct (IH Hin) as [x [Hx Rx]]. exists x. split; auto. now right.
 Qed.
 
-(* ------------------------------------------------------------------ the whole allocation *)
-Definition granted (t : nat) (tot : devres) (per : res) (a : alloc) : Prop :=
-  r0 (snd a) = r0 per /\ r1 (snd a) = r1 per /\
-  (t <> 0%nat -> snd a = per) /\
-  (t = 0%nat -> r2 (snd a) = Some (Z.quot (oz (r1 per) * rval (ores (dget tot (fst a))) 2) 100)).
-
-Definition type_done (kind : Z) (ls : list ledger) (infos : list devinfo) (rq : rawreq) (t : nat)
-           (al : list alloc) : Prop :=
-  match treq_of rq t with
-  | TReq per count sh =>
-      length al = desired_count count /\ NoDup (map fst al) /\
-      forall a, In a al ->
-        ledger_ok (pfit_t kind t (total (ledger_of ls t)) per sh) (ledger_of ls t) (minors_of infos t) per (fst a)
-        /\ granted t (total (ledger_of ls t)) per a
-  | _ => al = []
-  end.
-
-Definition pt (kind : Z) (ls : list ledger) (infos : list devinfo) (rq : rawreq) (t : nat)
-  : option (option (list alloc)) :=
-  match treq_of rq t with
-  | TReq per count sh => Some (alloc_type kind true ls infos t per count sh)
-  | _ => None
-  end.
-Definition al_of (o : option (option (list alloc))) : list alloc :=
-  match o with Some (Some al) => al | _ => [] end.
-Definition is_refused (o : option (option (list alloc))) : bool :=
-  match o with Some None => true | _ => false end.
-
-Lemma pt_spec kind ls infos rq t :
-  lgood (ledger_of ls t) -> is_refused (pt kind ls infos rq t) = false ->
-  match treq_of rq t with
-  | TReq per count sh =>
-      let al := al_of (pt kind ls infos rq t) in
-      length al = desired_count count /\ NoDup (map fst al) /\
-      forall a, In a al -> snd a = per /\
-        ledger_ok (pfit_t kind t (total (ledger_of ls t)) per sh) (ledger_of ls t) (minors_of infos t) per (fst a)
-  | _ => al_of (pt kind ls infos rq t) = []
-  end.
-Proof.
-  intros G. unfold pt. destruct (treq_of rq t) as [| |per count sh] eqn:E; auto.
-  destruct (alloc_type kind true ls infos t per count sh) as [al|] eqn:A; [|discriminate].
-  intros _. cbn [al_of]. apply treq_spec in E as [Hc _].
-  eapply alloc_type_sound; eauto.
-Qed.
-
-Lemma allocate_unfold kind ls infos rq :
-  allocate kind ls infos rq =
-  if is_invalid (treq_of rq 0) || (is_invalid (treq_of rq 1) || (is_invalid (treq_of rq 2) || false))
-  then AFail c_unresolvable
-  else if negb (is_req (treq_of rq 0) || (is_req (treq_of rq 1) || (is_req (treq_of rq 2) || false)))
-  then ASkip
-  else if no_device_t ls 0 rq || (no_device_t ls 1 rq || (no_device_t ls 2 rq || false))
-  then AFail c_unresolvable
-  else if part_unsupported kind (treq_of rq 0) then AFail c_unresolvable
-  else if is_refused (pt kind ls infos rq 0) || (is_refused (pt kind ls infos rq 1) || (is_refused (pt kind ls infos rq 2) || false))
-  then AFail c_unsched
-  else match fill_all (total (ledger_of ls 0)) (al_of (pt kind ls infos rq 0)) with
-       | None => AFail c_error
-       | Some g => ADone [g; al_of (pt kind ls infos rq 1); al_of (pt kind ls infos rq 2)]
-       end.
-Proof. reflexivity. Qed.
-
-Lemma allocate_done kind ls infos rq da :
-  (forall t, lgood (ledger_of ls t)) -> allocate kind ls infos rq = ADone da ->
-  forall t, (t < 3)%nat -> type_done kind ls infos rq t (allocs_of da t).
-Proof.
-  intros G. rewrite allocate_unfold.
-  destruct (is_invalid (treq_of rq 0) || _); [discriminate|].
-  destruct (negb _); [discriminate|].
-  destruct (no_device_t ls 0 rq || _); [discriminate|].
-  destruct (part_unsupported kind (treq_of rq 0)); [discriminate|].
-  destruct (is_refused (pt kind ls infos rq 0) || _) eqn:R; [discriminate|].
-  apply orb_false_iff in R as [R0 R]. apply orb_false_iff in R as [R1 R].
-  apply orb_false_iff in R as [R2 _].
-  destruct (fill_all (total (ledger_of ls 0)) (al_of (pt kind ls infos rq 0))) as [g|] eqn:F; [|discriminate].
-  intros H. injection H as <-. intros t Ht.
-  pose proof (pt_spec kind ls infos rq 0 (G 0%nat) R0) as P0.
-  pose proof (pt_spec kind ls infos rq 1 (G 1%nat) R1) as P1.
-  pose proof (pt_spec kind ls infos rq 2 (G 2%nat) R2) as P2.
-  unfold type_done. destruct t as [|[|[|t]]]; [| | |lia]; cbn [allocs_of nth].
-  - apply fill_all_spec in F. destruct (treq_of rq 0) as [| |per count sh] eqn:E.
-    + rewrite P0 in F. now inversion F.
-    + rewrite P0 in F. now inversion F.
-    + cbn zeta in P0. destruct P0 as [Len [ND Hall]].
-      pose proof (Forall2_map_fst _ _ _ F) as Mf. apply treq_spec in E as [_ [_ [E2 _]]].
-      split; [|split].
-      * rewrite <- Len. eapply Forall2_len; eauto.
-      * now rewrite Mf.
-      * intros a' Ha'. destruct (Forall2_In_r _ _ _ _ F Ha') as [a [Ha [Ef [F0 [F1 F2]]]]].
-        destruct (Hall a Ha) as [Es Hl]. rewrite Ef. split; auto.
-        unfold granted. rewrite F0, F1, Es. repeat split; auto; try congruence.
-        intros _. rewrite Ef, F2, Es; auto. now rewrite Es.
-  - destruct (treq_of rq 1) as [| |per count sh]; auto. cbn zeta in P1.
-    destruct P1 as [Len [ND Hall]]. split; auto. split; auto.
-    intros a Ha. destruct (Hall a Ha) as [Es Hl]. split; auto.
-    unfold granted. rewrite Es. repeat split; auto. intros; discriminate.
-  - destruct (treq_of rq 2) as [| |per count sh]; auto. cbn zeta in P2.
-    destruct P2 as [Len [ND Hall]]. split; auto. split; auto.
-    intros a Ha. destruct (Hall a Ha) as [Es Hl]. split; auto.
-    unfold granted. rewrite Es. repeat split; auto. intros; discriminate.
-Qed.
-
-Lemma allocate_fail kind ls infos rq code :
-  (forall t, lgood (ledger_of ls t)) -> allocate kind ls infos rq = AFail code ->
-  (code = c_unresolvable /\
-   (existsb (fun t => is_invalid (treq_of rq t)) type_ids
-    || existsb (fun t => no_device_t ls t rq) type_ids
-    || part_unsupported kind (treq_of rq 0)) = true)
-  \/ (code = c_unsched /\ existsb (fun t => alloc_short_t kind ls infos t rq) type_ids = true).
-Proof.
-  intros G. rewrite allocate_unfold. cbn [existsb type_ids].
-  destruct (is_invalid (treq_of rq 0) || _) eqn:I.
-  { intros H. injection H as <-. left. split; auto. }
-  destruct (negb _); [discriminate|].
-  destruct (no_device_t ls 0 rq || _) eqn:N.
-  { intros H. injection H as <-. left. split; auto. }
-  destruct (part_unsupported kind (treq_of rq 0)) eqn:Pu.
-  { intros H. injection H as <-. left. split; auto. }
-  destruct (is_refused (pt kind ls infos rq 0) || _) eqn:R.
-  { intros H. injection H as <-. right. split; auto.
-    assert (P : forall t, is_refused (pt kind ls infos rq t) = true -> alloc_short_t kind ls infos t rq = true).
-    { intros t. unfold pt, alloc_short_t. destruct (treq_of rq t) as [| |per count sh] eqn:E; try discriminate.
-      destruct (alloc_type kind true ls infos t per count sh) eqn:A; [discriminate|]. intros _.
-      apply treq_spec in E as [Hc _].
-      destruct (alloc_type_complete kind ls infos t per count sh true (G t) Hc A) as [Hlt|[-> Hp]].
-      - apply orb_true_iff. left. now apply Nat.ltb_lt.
-      - apply orb_true_iff. right. now rewrite Hp. }
-    apply orb_true_iff in R as [R|R]; [rewrite (P _ R); reflexivity|].
-    apply orb_true_iff in R as [R|R]; [rewrite (P _ R); apply orb_true_iff; right; reflexivity|].
-    apply orb_true_iff in R as [R|R]; [|discriminate].
-    rewrite (P _ R). rewrite !orb_true_r. reflexivity. }
-  apply orb_false_iff in R as [R0 _].
-  destruct (fill_all (total (ledger_of ls 0)) (al_of (pt kind ls infos rq 0))) eqn:F; [discriminate|].
-  exfalso. revert F. apply fill_all_total. intros a Ha.
-  pose proof (pt_spec kind ls infos rq 0 (G 0%nat) R0) as P0.
-  destruct (treq_of rq 0) as [| |per count sh]; try (rewrite P0 in Ha; destruct Ha).
-  cbn zeta in P0. destruct P0 as [_ [_ Hall]]. destruct (Hall a Ha) as [_ [_ [f [_ [_ Z]]]]]. exact Z.
-Qed.
-
-Lemma allocate_skip kind ls infos rq :
-  allocate kind ls infos rq = ASkip ->
-  existsb (fun t => is_req (treq_of rq t) || is_invalid (treq_of rq t)) type_ids = false.
-Proof.
-  rewrite allocate_unfold. cbn [existsb type_ids].
-  destruct (is_invalid (treq_of rq 0) || _) eqn:I; [discriminate|].
-  destruct (negb _) eqn:Q; [|repeat match goal with |- context [if ?b then _ else _] => destruct b end;
-                              try discriminate; destruct (fill_all _ _); discriminate].
-  intros _. apply negb_true_iff in Q.
-  apply orb_false_iff in I as [I0 I]. apply orb_false_iff in I as [I1 I]. apply orb_false_iff in I as [I2 _].
-  apply orb_false_iff in Q as [Q0 Q]. apply orb_false_iff in Q as [Q1 Q]. apply orb_false_iff in Q as [Q2 _].
-  now rewrite I0, I1, I2, Q0, Q1, Q2.
-Qed.
-
-(* the code of a refusal is one of the three failure codes (never the success code) *)
-Lemma allocate_fail_codes kind ls infos rq code :
-  allocate kind ls infos rq = AFail code -> code = c_unresolvable \/ (code = c_unsched \/ code = c_error).
-Proof.
-  rewrite allocate_unfold.
-  repeat match goal with |- context [if ?b then _ else _] => destruct b end;
-    try discriminate; try (intros H; injection H as <-; auto).
-  destruct (fill_all _ _); [discriminate|]. intros H; injection H as <-; auto.
-Qed.
